@@ -147,7 +147,20 @@ def run(ctx):
                 t = t[3][0]
             if t[0] == "bin" and t[1] == "Add":
                 lhs = t[2]
-                return any(x == ("param", 2) for x in walk(lhs)) and any(x[0] == "index" or x[0] == "cindex" or x[0] == "deref" for x in walk(t[3]))
+                return any(x == ("param", 2) for x in walk(lhs)) and reads_coefficients(t[3])
+            return False
+
+        def reads_coefficients(t):
+            # the correction is computed from the coefficient table parameter (directly, or through loop-carried values)
+            seen, st = set(), [t]
+            while st:
+                y = st.pop()
+                for x in walk(y):
+                    if x == ("param", 3):
+                        return True
+                    if x[0] == "phi" and x[1] == fa.path and x not in seen:
+                        seen.add(x)
+                        st.extend(fa.phi_operands(x).values())
             return False
         run.inst("C19.A4", "single-series-formula", len(rs) == 1 and phi_plus(rs[0]),
                  "apply_coefficients has %d result formula(s); %s" % (len(rs), "phi + series(coefficients)" if len(rs) == 1 and phi_plus(rs[0]) else "an input range is special-cased or the shape is not phi + correction"),
